@@ -3,6 +3,7 @@ Helper lemmas for C13: the token loop of `full_cleaning`. Core Lean only.
 -/
 import Paroxy.Model.Cleanup
 import Paroxy.Spec.Cleanup
+import Paroxy.Proofs.Cleanup
 namespace Paroxy.Cleanup
 open Paroxy.Cleanup.Spec
 
@@ -15,7 +16,7 @@ theorem loopFrom_length (st : LoopState) (ts : List Token) : (loopFrom st ts).le
 looking at the kind of the token after it. -/
 theorem loopFrom_getElem (st : LoopState) (ts : List Token) (i : Nat) (h : i < ts.length) :
     (loopFrom st ts)[i]'(by rw [loopFrom_length]; exact h) =
-      (step (stateAfter st (ts.take i) (ts.drop i)) ts[i] (nextKind (ts.drop (i + 1)))).2 := by
+      (step (stateAfter st (ts.take i) (ts.drop i)) ts[i] (lookAhead (ts.drop (i + 1)))).2 := by
   induction ts generalizing st i with
   | nil => simp at h
   | cons t ts ih =>
@@ -29,7 +30,7 @@ theorem loopFrom_getElem (st : LoopState) (ts : List Token) (i : Nat) (h : i < t
 /-- The joined output splits around token `i`. -/
 theorem loopFrom_split (st : LoopState) (ts : List Token) (i : Nat) (h : i < ts.length) :
     ∃ before after, loopFrom st ts = before ++
-      (step (stateAfter st (ts.take i) (ts.drop i)) ts[i] (nextKind (ts.drop (i + 1)))).2 :: after := by
+      (step (stateAfter st (ts.take i) (ts.drop i)) ts[i] (lookAhead (ts.drop (i + 1)))).2 :: after := by
   have hl : i < (loopFrom st ts).length := by rw [loopFrom_length]; exact h
   refine ⟨(loopFrom st ts).take i, (loopFrom st ts).drop (i + 1), ?_⟩
   rw [← loopFrom_getElem st ts i h, List.getElem_cons_drop, List.take_append_drop]
@@ -116,73 +117,16 @@ theorem atStmtStartB_iff (pre : List Token) : atStmtStartB pre = true ↔ AtStmt
   unfold atStmtStartB AtStmtStart
   exact atStmtStartRev_iff _
 
-/-- `tokens[i + 1]` is missing exactly when the last token is a STRING at a statement start. -/
-theorem loopRaisesFrom_snoc (st : LoopState) (pre : List Token) (t : Token) :
-    loopRaisesFrom st (pre ++ [t]) =
-      (decide (t.kind = .string) && (stateAfter st pre [t]).prev.opensStmt) := by
-  induction pre generalizing st with
-  | nil => simp [loopRaisesFrom, stateAfter]
-  | cons a as ih =>
-    cases as with
-    | nil => simp [loopRaisesFrom, stateAfter, nextKind]
-    | cons b bs =>
-      simp only [List.cons_append, loopRaisesFrom]
-      rw [← List.cons_append, ih]
-      simp [stateAfter, nextKind]
-
-/-! ### the normalised hint comment -/
-
-/-- When a marker is counted, the result contains `# paroxython: `. -/
-theorem normAux_marker (skip : Nat) (s : Text) (h : (normAux skip s).2 ≠ 0) :
-    ∃ a b, (normAux skip s).1 = a ++ hintMarker ++ b := by
-  induction s generalizing skip with
-  | nil => simp [normAux] at h
-  | cons c cs ih =>
-    cases skip with
-    | succ k =>
-      rw [normAux] at h ⊢
-      exact ih k h
-    | zero =>
-      rw [normAux] at h ⊢
-      cases hm : markerRest? (c :: cs) with
-      | some rest => exact ⟨[], (normAux (cs.length - rest.length) cs).1, by simp⟩
-      | none =>
-        rw [hm] at h
-        simp only at h ⊢
-        obtain ⟨a, b, hab⟩ := ih 0 h
-        exact ⟨c :: a, b, by simp [hab]⟩
-
-/-- The count is positive exactly when the marker regex matches at some position. -/
-theorem normAux_zero_count (s : Text) :
-    (normAux 0 s).2 ≠ 0 ↔ ∃ a b, s = a ++ b ∧ (markerRest? b).isSome = true := by
-  induction s with
-  | nil =>
-    simp only [normAux, ne_eq, not_true_eq_false, false_iff]
-    rintro ⟨a, b, h, hb⟩
-    have : b = [] := by
-      cases a <;> simp_all
-    subst this
-    simp [markerRest?] at hb
-  | cons c cs ih =>
-    rw [normAux]
-    cases hm : markerRest? (c :: cs) with
-    | some rest =>
-      simp only [ne_eq, Nat.add_eq_zero_iff, Nat.succ_ne_self, and_false, not_false_eq_true, true_iff]
-      exact ⟨[], c :: cs, rfl, by simp [hm]⟩
-    | none =>
-      simp only
-      rw [ih]
-      constructor
-      · rintro ⟨a, b, h, hb⟩
-        exact ⟨c :: a, b, by simp [h], hb⟩
-      · rintro ⟨a, b, h, hb⟩
-        cases a with
-        | nil =>
-          simp only [List.nil_append] at h
-          rw [← h, hm] at hb
-          simp at hb
-        | cons x xs =>
-          simp only [List.cons_append, List.cons.injEq] at h
-          exact ⟨xs, b, h.2, hb⟩
+theorem lookAhead_eq (ts : List Token) : lookAhead ts = nextCodeKind ts := by
+  induction ts with
+  | nil => rfl
+  | cons t ts ih =>
+    unfold lookAhead at ih ⊢
+    simp only [List.find?_cons, nextCodeKind]
+    by_cases hc : t.kind = .comment
+    · simp only [hc, bne_self_eq_false, Bool.false_eq_true, if_false, if_true]
+      exact ih
+    · have hb : (t.kind != Kind.comment) = true := by simp [hc]
+      simp [hc, hb]
 
 end Paroxy.Cleanup
